@@ -5,18 +5,26 @@ package main
 // through the query API.
 
 import (
-	"golang.org/x/sys/unix"
 	"fmt"
 	"os"
 	"path/filepath"
+	"runtime"
 	"sort"
 	"strings"
 	"time"
+
+	"golang.org/x/sys/unix"
 
 	"tags.cncf.io/container-device-interface/pkg/cdi"
 	specs "tags.cncf.io/container-device-interface/specs-go"
 	"verif/harness/hx"
 )
+
+// DEFECT-PENDING(link-target-unwatched): see notes/audit/DEFECT-C13-link-target-unwatched.md.  In automatic refresh mode a
+// Spec file which is a dangling link stays in error after its target has been created under a non-Spec name (no event
+// the watcher reacts to, and Refresh() does not rescan in that mode).  While false, this repair is only generated for
+// manual-refresh caches.
+const defectPendingLinkTargetUnwatched = false
 
 const (
 	entValid = iota
@@ -28,9 +36,10 @@ type absEntry struct {
 	Name    string
 	Kind    int
 	Spec    *specs.Spec // entValid
-	Invalid string      // entInvalid: syntax | nodevices | dupnames | empty | dangling | linktodir | badkind
+	Invalid string      // entInvalid: syntax | nodevices | dupnames | empty | dangling | linktodir | badkind | selflink | enotdirlink | toolonglink | socket | fifo | unreadable
 	SubFile bool        // entSub: put a valid-looking Spec file inside the sub-directory
 	ViaLink bool        // entValid: the name is a symbolic link to the Spec file (which lives outside the configured directories)
+	LinkHow int         // ViaLink: 0 absolute target, 1 relative target, 2 a chain of two links, 3 target <name>.target next to the link
 }
 
 const (
@@ -41,14 +50,36 @@ const (
 )
 
 type absDir struct {
-	Path    string // as configured (already clean)
+	Path    string // absolute and clean: where the directory is on disk
+	Rel     string // if set: the (clean) path relative to the working directory under which the directory is configured
 	State   int
 	Entries []absEntry // dirDir
 	File    *absEntry  // dirIsFile
 	ViaLink bool       // dirDir: the configured path is a symbolic link to the directory
+	// dirUnscannable: "" = the parent of the path is a regular file (ENOTDIR); otherwise a permission fault which shows only
+	// while the scanning thread is without CAP_DAC_OVERRIDE / CAP_DAC_READ_SEARCH (withoutDACCaps): "mode000", "mode444"
+	// (names can be listed, no entry can be looked at), "mode111" (cannot be listed), "parent000".  The Entries are on disk
+	// all the time and become visible when the permissions are repaired.
+	Unscan string
 }
 
-type absFS struct{ Dirs []*absDir }
+// absFS: the configured directories in order; Spell (optional, parallel to Dirs) holds the spelling handed to WithSpecDirs
+// for that position (a spelling which filepath.Clean brings to Dirs[i].Path by construction).
+type absFS struct {
+	Dirs  []*absDir
+	Spell []string
+}
+
+// fsOpts: what the generators may produce.
+type fsOpts struct {
+	rich      bool // edits of every kind (injection harnesses)
+	faults    bool // the C13 fault vocabulary for files, and repairs
+	dirFaults bool // configured paths that are files / have a non-directory ancestor, and directories turning into such
+	perm      bool // permission faults (the cache must then be used under withoutDACCaps only)
+	auto      bool // the cache under test refreshes automatically
+	relative  bool // directories may be configured relative to the working directory (the harness has moved into its scratch directory)
+	quiet     bool // the cache is observed without ever being asked to refresh (settleQuiet): only changes which produce an event
+}
 
 func (e *absEntry) term() string {
 	switch e.Kind {
@@ -76,7 +107,15 @@ func (d *absDir) term() string {
 		}
 		st = hx.C("DDir", hx.L(items))
 	}
-	return hx.P(hx.S(d.Path), st)
+	return hx.P(hx.S(d.confPath()), st)
+}
+
+// confPath: the clean path the directory is configured under (what the cache reports paths below).
+func (d *absDir) confPath() string {
+	if d.Rel != "" {
+		return d.Rel
+	}
+	return d.Path
 }
 
 func (fs *absFS) term() string {
@@ -87,21 +126,66 @@ func (fs *absFS) term() string {
 	return hx.L(items)
 }
 
+// dirList: the directory list as handed to WithSpecDirs (a fresh slice every time).
 func (fs *absFS) dirList() []string {
 	out := make([]string, len(fs.Dirs))
 	for i, d := range fs.Dirs {
-		out[i] = d.Path
+		out[i] = d.confPath()
+		if i < len(fs.Spell) && fs.Spell[i] != "" {
+			out[i] = fs.Spell[i]
+		}
 	}
 	return out
+}
+
+// add appends a directory (clean spelling).
+func (fs *absFS) add(d *absDir) {
+	if fs.Spell != nil {
+		for len(fs.Spell) < len(fs.Dirs) {
+			fs.Spell = append(fs.Spell, "")
+		}
+		fs.Spell = append(fs.Spell, "")
+	}
+	fs.Dirs = append(fs.Dirs, d)
+}
+
+// spellDir: an unusual but equivalent spelling of a clean absolute path: filepath.Clean(spellDir(p)) == p by construction.
+func spellDir(r *hx.R, p string) string {
+	dir, base := filepath.Dir(p), filepath.Base(p)
+	switch r.Intn(7) {
+	case 0:
+		return p + "/"
+	case 1:
+		return dir + "//" + base
+	case 2:
+		return dir + "/./" + base
+	case 3:
+		return p + "/."
+	case 4:
+		return dir + "/zz/../" + base
+	case 5:
+		return p + "//"
+	}
+	return dir + "/" + base + "/yy/.."
 }
 
 // desc renders the abstract state for evidence and replays.
 func (fs *absFS) desc() interface{} {
 	var out []interface{}
-	for _, d := range fs.Dirs {
-		m := map[string]interface{}{"path": d.Path, "state": []string{"missing", "unscannable", "is-file", "dir"}[d.State]}
+	for i, d := range fs.Dirs {
+		m := map[string]interface{}{"path": d.confPath(), "state": []string{"missing", "unscannable", "is-file", "dir"}[d.State]}
+		if i < len(fs.Spell) && fs.Spell[i] != "" {
+			m["configured_as"] = fs.Spell[i]
+		}
 		if d.ViaLink {
 			m["symbolic_link_to_directory"] = true
+		}
+		if d.State == dirUnscannable {
+			how := d.Unscan
+			if how == "" {
+				how = "parent is a regular file"
+			}
+			m["unscannable_because"] = how
 		}
 		var ents []interface{}
 		list := d.Entries
@@ -111,7 +195,11 @@ func (fs *absFS) desc() interface{} {
 		for _, e := range list {
 			switch e.Kind {
 			case entValid:
-				ents = append(ents, map[string]interface{}{"name": e.Name, "spec": specJSON(e.Spec)})
+				x := map[string]interface{}{"name": e.Name, "spec": specJSON(e.Spec)}
+				if e.ViaLink {
+					x["symbolic_link"] = []string{"absolute", "relative", "chain of two", "to <name>.target"}[e.LinkHow]
+				}
+				ents = append(ents, x)
 			case entInvalid:
 				ents = append(ents, map[string]interface{}{"name": e.Name, "invalid": e.Invalid})
 			default:
@@ -126,16 +214,81 @@ func (fs *absFS) desc() interface{} {
 	return out
 }
 
-func writeEntry(path string, e *absEntry) {
+// linkStore: where the targets of linked Spec files live (a sibling of the configured directories, never scanned itself).
+var linkSeq int
+
+func linkStore(path string) string {
+	// configured directories are <root>/<name> or <root>/<name>/below: walk up to the scenario root
+	dir := filepath.Dir(path)
+	if filepath.Base(dir) == "below" {
+		dir = filepath.Dir(dir)
+	}
+	return filepath.Join(filepath.Dir(dir), "linked-specs")
+}
+
+// isRegularContent: the entry is materialised as a regular file holding bytes (so that it can also be rewritten in place).
+func (e *absEntry) isRegularContent() bool {
+	switch e.Kind {
+	case entValid:
+		return !e.ViaLink
+	case entInvalid:
+		switch e.Invalid {
+		case "syntax", "nodevices", "dupnames", "badkind", "empty":
+			return true
+		}
+	}
+	return false
+}
+
+// hasCompanion: something next to the entry belongs to it (<name>.tgtdir, <name>.target): such entries are not renamed.
+func (e *absEntry) hasCompanion() bool {
+	return (e.Kind == entInvalid && (e.Invalid == "linktodir" || e.Invalid == "dangling" || e.Invalid == "selflink")) ||
+		(e.Kind == entValid && e.ViaLink && e.LinkHow == 3)
+}
+
+func removeEntry(path string) {
 	_ = os.RemoveAll(path)
+	_ = os.RemoveAll(path + ".tgtdir")
+	_ = os.RemoveAll(path + ".target")
+}
+
+func writeEntry(path string, e *absEntry) { writeEntryHow(path, e, false) }
+
+// writeEntryHow: inPlace rewrites an existing regular file through open(O_TRUNC) + write instead of replacing it.
+func writeEntryHow(path string, e *absEntry, inPlace bool) {
+	if !inPlace {
+		removeEntry(path)
+	}
 	switch e.Kind {
 	case entValid:
 		if e.ViaLink {
-			store := filepath.Join(filepath.Dir(filepath.Dir(path)), "linked-specs")
+			if e.LinkHow == 3 {
+				writeSpecFile(danglingTarget(path), e.Spec)
+				_ = os.Symlink(danglingTarget(path), path)
+				return
+			}
+			store := linkStore(path)
 			_ = os.MkdirAll(store, 0o755)
-			tgt := filepath.Join(store, strings.ReplaceAll(strings.TrimPrefix(path, "/"), "/", "_")+filepath.Ext(path))
+			linkSeq++
+			tgt := filepath.Join(store, fmt.Sprintf("t%d%s", linkSeq, filepath.Ext(path)))
+			if ext := filepath.Ext(tgt); ext != ".json" && ext != ".yaml" {
+				tgt += ".yaml"
+			}
 			writeSpecFile(tgt, e.Spec)
-			_ = os.Symlink(tgt, path)
+			switch e.LinkHow {
+			case 1: // relative to the directory the link lives in (configured directories are siblings of the store)
+				rel := filepath.Join("..", "linked-specs", filepath.Base(tgt))
+				if filepath.Base(filepath.Dir(path)) == "below" {
+					rel = filepath.Join("..", rel)
+				}
+				_ = os.Symlink(rel, path)
+			case 2: // link -> link -> file
+				mid := filepath.Join(store, fmt.Sprintf("m%d", linkSeq))
+				_ = os.Symlink(filepath.Base(tgt), mid)
+				_ = os.Symlink(mid, path)
+			default:
+				_ = os.Symlink(tgt, path)
+			}
 		} else {
 			writeSpecFile(path, e.Spec)
 		}
@@ -157,7 +310,14 @@ func writeEntry(path string, e *absEntry) {
 		case "empty":
 			_ = os.WriteFile(path, nil, 0o644)
 		case "dangling":
-			_ = os.Symlink(filepath.Join(filepath.Dir(path), "does-not-exist-target"), path)
+			_ = os.Symlink(danglingTarget(path), path)
+		case "selflink": // two links pointing at each other: ELOOP when opened
+			_ = os.Symlink(path, path+".target")
+			_ = os.Symlink(path+".target", path)
+		case "enotdirlink": // the target has a non-directory ancestor: ENOTDIR when opened
+			_ = os.Symlink("/dev/null/x.json", path)
+		case "toolonglink": // ENAMETOOLONG when opened
+			_ = os.Symlink("/"+strings.Repeat("n", 300)+".json", path)
 		case "linktodir":
 			tgt := path + ".tgtdir"
 			_ = os.MkdirAll(tgt, 0o755)
@@ -170,17 +330,32 @@ func writeEntry(path string, e *absEntry) {
 			}
 		case "socket":
 			_ = unix.Mknod(path, unix.S_IFSOCK|0o644, 0)
+		case "unreadable": // a perfectly good Spec nobody may read (shows only without the DAC capabilities)
+			_ = os.WriteFile(path, []byte(`{"cdiVersion":"0.3.0","kind":"vendor1.com/gpu","devices":[{"name":"dev1","containerEdits":{"env":["FP=unreadable"]}}]}`), 0o644)
+			_ = os.Chmod(path, 0)
 		}
 	}
 }
 
+// danglingTarget: where a dangling link of this name points: <name>.target next to it (not a Spec name).
+func danglingTarget(path string) string { return path + ".target" }
+
 // materialise (re)creates the directory on disk from its abstract state.
 func (d *absDir) materialise() {
+	d.clearPerm()
 	_ = os.RemoveAll(d.Path)
-	// a regular file possibly standing where an ancestor directory should be
+	_ = os.RemoveAll(d.Path + ".real")
 	switch d.State {
 	case dirMissing:
 	case dirUnscannable:
+		if d.Unscan != "" {
+			_ = os.MkdirAll(d.Path, 0o755)
+			for i := range d.Entries {
+				writeEntry(filepath.Join(d.Path, d.Entries[i].Name), &d.Entries[i])
+			}
+			d.applyPerm()
+			return
+		}
 		// the parent of the configured path is a regular file: lstat fails with ENOTDIR
 		parent := filepath.Dir(d.Path)
 		_ = os.RemoveAll(parent)
@@ -192,7 +367,6 @@ func (d *absDir) materialise() {
 	default:
 		if d.ViaLink {
 			real := d.Path + ".real"
-			_ = os.RemoveAll(real)
 			_ = os.MkdirAll(real, 0o755)
 			_ = os.MkdirAll(filepath.Dir(d.Path), 0o755)
 			_ = os.Symlink(real, d.Path)
@@ -203,6 +377,73 @@ func (d *absDir) materialise() {
 			writeEntry(filepath.Join(d.Path, d.Entries[i].Name), &d.Entries[i])
 		}
 	}
+}
+
+// applyPerm puts the permission fault of an unscannable directory in place; clearPerm takes it away.
+func (d *absDir) applyPerm() {
+	switch d.Unscan {
+	case "mode000":
+		_ = os.Chmod(d.Path, 0)
+	case "mode444":
+		_ = os.Chmod(d.Path, 0o444)
+	case "mode111":
+		_ = os.Chmod(d.Path, 0o111)
+	case "parent000":
+		_ = os.Chmod(filepath.Dir(d.Path), 0)
+	}
+}
+
+func (d *absDir) clearPerm() {
+	if d.Unscan == "" {
+		return
+	}
+	if d.Unscan == "parent000" {
+		_ = os.Chmod(filepath.Dir(d.Path), 0o755)
+	}
+	if fi, err := os.Stat(d.Path); err == nil && fi.IsDir() {
+		_ = os.Chmod(d.Path, 0o755)
+	}
+}
+
+// withoutDACCaps runs f on a thread which has given up CAP_DAC_OVERRIDE and CAP_DAC_READ_SEARCH for the duration: file
+// permissions then apply to this (root) process as to anybody, so that unreadable directories and files can be produced.
+// Only the calling goroutine is affected (a manual-refresh cache scans on the caller's goroutine).  Returns false when the
+// capabilities cannot be handled here (f has then not been run).
+func withoutDACCaps(f func()) bool {
+	runtime.LockOSThread()
+	defer runtime.UnlockOSThread()
+	hdr := unix.CapUserHeader{Version: unix.LINUX_CAPABILITY_VERSION_3}
+	var data [2]unix.CapUserData
+	if err := unix.Capget(&hdr, &data[0]); err != nil {
+		return false
+	}
+	saved := data
+	data[0].Effective &^= (1 << unix.CAP_DAC_OVERRIDE) | (1 << unix.CAP_DAC_READ_SEARCH)
+	if err := unix.Capset(&hdr, &data[0]); err != nil {
+		return false
+	}
+	defer func() {
+		if err := unix.Capset(&hdr, &saved[0]); err != nil {
+			panic("cannot restore capabilities: " + err.Error())
+		}
+	}()
+	f()
+	return true
+}
+
+// dacCapsWork: permission faults can be produced here (root whose capabilities can be dropped per thread).
+func dacCapsWork(scratch string) bool {
+	_ = os.MkdirAll(scratch, 0o755)
+	p := filepath.Join(scratch, "capprobe")
+	_ = os.WriteFile(p, []byte("x"), 0)
+	defer os.Remove(p)
+	denied := false
+	ok := withoutDACCaps(func() {
+		_, err := os.ReadFile(p)
+		denied = err != nil
+	})
+	_, err := os.ReadFile(p)
+	return ok && denied && err == nil
 }
 
 func (fs *absFS) materialise() {
@@ -222,6 +463,9 @@ var poolVendors = []string{"vendor1.com", "vendor2.org"}
 var poolClasses = []string{"gpu", "nic"}
 var poolDevNames = []string{"dev1", "dev2", "3d"}
 
+// spellings which differ from a pool name only in the case of a letter: other names altogether
+var caseVendor, caseClass, caseDevName = "Vendor1.com", "GPU", "Dev1"
+
 func allPoolNames() []string {
 	var out []string
 	for _, v := range poolVendors {
@@ -234,13 +478,64 @@ func allPoolNames() []string {
 	return out
 }
 
+// definedNames: every qualified name some valid Spec of the population defines (whatever the file is called), sorted.
+func (fs *absFS) definedNames() []string {
+	seen := map[string]bool{}
+	for _, d := range fs.Dirs {
+		list := d.Entries
+		if d.State == dirIsFile && d.File != nil {
+			list = []absEntry{*d.File}
+		}
+		for _, e := range list {
+			if e.Kind == entValid {
+				for _, dev := range e.Spec.Devices {
+					seen[e.Spec.Kind+"="+dev.Name] = true
+				}
+			}
+		}
+	}
+	out := make([]string, 0, len(seen))
+	for n := range seen {
+		out = append(out, n)
+	}
+	sort.Strings(out)
+	return out
+}
+
+// probeNames: the pool names, the names the population defines beyond the pool, and names nothing defines.
+func (fs *absFS) probeNames() []string {
+	out := allPoolNames()
+	seen := map[string]bool{}
+	for _, n := range out {
+		seen[n] = true
+	}
+	for _, n := range fs.definedNames() {
+		if !seen[n] {
+			seen[n] = true
+			out = append(out, n)
+		}
+	}
+	return append(out, "vendor1.com/gpu=none", "VENDOR1.COM/gpu=dev1", "vendor1.com/gpu=dev1 ", "bogus", "")
+}
+
 // genValidSpec: 1-3 devices with unique names, each with a fingerprint env entry; optional spec-level edits.
 func genValidSpec(r *hx.R, fp string, rich bool) *specs.Spec {
-	s := &specs.Spec{Version: "0.5.0", Kind: hx.Pick(r, poolVendors) + "/" + hx.Pick(r, poolClasses)}
-	perm := r.Perm(len(poolDevNames))
+	vendor, class := hx.Pick(r, poolVendors), hx.Pick(r, poolClasses)
+	if r.Chance(0.07) {
+		vendor = caseVendor
+	}
+	if r.Chance(0.05) {
+		class = caseClass
+	}
+	s := &specs.Spec{Version: "0.5.0", Kind: vendor + "/" + class}
+	names := poolDevNames
+	if r.Chance(0.15) {
+		names = append(append([]string{}, poolDevNames...), caseDevName)
+	}
+	perm := r.Perm(len(names))
 	n := 1 + r.Intn(len(poolDevNames))
 	for _, i := range perm[:n] {
-		name := poolDevNames[i]
+		name := names[i]
 		d := specs.Device{Name: name}
 		d.ContainerEdits.Env = []string{"FP=" + fp + ":" + name}
 		if rich {
@@ -261,6 +556,29 @@ func genValidSpec(r *hx.R, fp string, rich bool) *specs.Spec {
 		if rich {
 			richEdits(r, &s.ContainerEdits, fp)
 		}
+	}
+	if v, err := specs.MinimumRequiredVersion(s); err == nil {
+		s.Version = v
+	}
+	return s
+}
+
+// genSpecDefining: a valid Spec of the given kind whose first device has the given name (others of the pool may follow).
+func genSpecDefining(r *hx.R, fp, kind, dev string) *specs.Spec {
+	s := &specs.Spec{Version: "0.5.0", Kind: kind}
+	names := []string{dev}
+	for _, n := range poolDevNames {
+		if n != dev && r.Chance(0.4) {
+			names = append(names, n)
+		}
+	}
+	for _, name := range names {
+		d := specs.Device{Name: name}
+		d.ContainerEdits.Env = []string{"FP=" + fp + ":" + name}
+		s.Devices = append(s.Devices, d)
+	}
+	if r.Chance(0.3) {
+		s.ContainerEdits.Env = []string{"SPECFP=" + fp}
 	}
 	if v, err := specs.MinimumRequiredVersion(s); err == nil {
 		s.Version = v
@@ -313,21 +631,50 @@ func richEdits(r *hx.R, e *specs.ContainerEdits, tag string) {
 }
 
 var specNames = []string{"a.json", "b.yaml", "c.json", "d.yaml", ".json"}
-var nonSpecNames = []string{"x.yml", "y.json.bak", "noext", "UP.JSON", "z.yaml~", "aa", "b.sock", "0fifo"}
-var invalidKinds = []string{"syntax", "nodevices", "dupnames", "empty", "dangling", "linktodir", "badkind"}
 
-func genEntry(r *hx.R, dirTag string, used map[string]bool, rich bool, faults bool) *absEntry {
+// Spec names of unusual shape: a name differing from a usual one in case only, several dots, both extensions, a blank,
+// a non-ASCII letter, a leading dash, nothing but dots before the extension, the longest name a directory can hold
+var oddSpecNames = []string{"A.json", "a.b.json", "a.json.yaml", "b.yaml.json", "x y.yaml", "\xc3\xbc.json", "-n.json", "..yaml", ".yaml",
+	strings.Repeat("l", 250) + ".json"}
+var nonSpecNames = []string{"x.yml", "y.json.bak", "noext", "UP.JSON", "z.yaml~", "aa", "b.sock", "0fifo"}
+
+// names which only look like Spec names: other case, the extension without its dot or not at the very end, one letter
+// more or less
+var oddNonSpecNames = []string{"json", "xjson", "myyaml", "a.jsonx", "a.json ", "a.Json", "B.YAML", "a.yaml.bak", "a.json.", ".json.swp",
+	"a_json", "a.jso", "a.yam", "a.json,v", "c.json.d"}
+var invalidKinds = []string{"syntax", "nodevices", "dupnames", "empty", "dangling", "linktodir", "badkind", "selflink", "enotdirlink", "toolonglink"}
+
+func pickSpecName(r *hx.R) string {
+	if r.Chance(0.22) {
+		return hx.Pick(r, oddSpecNames)
+	}
+	return hx.Pick(r, specNames)
+}
+
+func pickNonSpecName(r *hx.R) string {
+	if r.Chance(0.45) {
+		return hx.Pick(r, oddNonSpecNames)
+	}
+	return hx.Pick(r, nonSpecNames)
+}
+
+func isSpecFileName(name string) bool {
+	ext := filepath.Ext(name)
+	return ext == ".json" || ext == ".yaml"
+}
+
+func genEntry(r *hx.R, dirTag string, used map[string]bool, o fsOpts) *absEntry {
 	var name string
 	kind := entValid
 	x := r.Float64()
 	switch {
 	case x < 0.60:
-		name = hx.Pick(r, specNames)
+		name = pickSpecName(r)
 	case x < 0.72:
-		name = hx.Pick(r, specNames)
+		name = pickSpecName(r)
 		kind = entInvalid
 	case x < 0.86:
-		name = hx.Pick(r, nonSpecNames)
+		name = pickNonSpecName(r)
 		if r.Chance(0.3) {
 			kind = entInvalid
 		}
@@ -335,29 +682,39 @@ func genEntry(r *hx.R, dirTag string, used map[string]bool, rich bool, faults bo
 		name = hx.Pick(r, []string{"sub", "s.json", "t.yaml"})
 		kind = entSub
 	}
-	if faults && kind == entValid && r.Chance(0.35) {
+	if o.faults && kind == entValid && r.Chance(0.35) {
 		kind = entInvalid
 	}
 	if used[name] {
 		return nil
 	}
 	used[name] = true
+	return genEntryNamed(r, dirTag, name, kind, o)
+}
+
+func genEntryNamed(r *hx.R, dirTag, name string, kind int, o fsOpts) *absEntry {
 	e := &absEntry{Name: name, Kind: kind}
 	switch kind {
 	case entValid:
-		e.Spec = genValidSpec(r, dirTag+"/"+name, rich)
-		e.ViaLink = r.Chance(0.1)
+		e.Spec = genValidSpec(r, dirTag+"/"+name, o.rich)
+		e.ViaLink = r.Chance(0.12)
+		e.LinkHow = r.Intn(3)
 	case entInvalid:
 		e.Invalid = hx.Pick(r, invalidKinds)
-		isSpecName := filepath.Ext(name) == ".json" || filepath.Ext(name) == ".yaml"
 		if r.Chance(0.25) {
 			// a special file: ignored under a non-Spec name, an unloadable Spec file under a Spec name; it must never hide
 			// the entries that sort after it
-			if isSpecName {
+			if isSpecFileName(name) {
 				e.Invalid = "socket"
 			} else {
 				e.Invalid = hx.Pick(r, []string{"fifo", "socket"})
+				if len(name) > 6 || strings.Contains(name, "json") || strings.Contains(name, "yaml") {
+					// a FIFO only under names nobody could take for a Spec file: whoever opens one hangs
+					e.Invalid = "socket"
+				}
 			}
+		} else if o.perm && r.Chance(0.35) {
+			e.Invalid = "unreadable"
 		}
 	case entSub:
 		e.SubFile = r.Chance(0.5)
@@ -365,24 +722,59 @@ func genEntry(r *hx.R, dirTag string, used map[string]bool, rich bool, faults bo
 	return e
 }
 
-func genDirEntries(r *hx.R, tag string, rich, faults bool) []absEntry {
+func genDirEntries(r *hx.R, tag string, o fsOpts) []absEntry {
 	used := map[string]bool{}
 	var out []absEntry
 	n := r.Intn(5)
+	if r.Chance(0.06) {
+		n = 5 + r.Intn(4)
+	}
 	for i := 0; i < n; i++ {
-		if e := genEntry(r, tag, used, rich, faults); e != nil {
+		if e := genEntry(r, tag, used, o); e != nil {
 			out = append(out, *e)
 		}
 	}
 	return out
 }
 
-// genFS: 1-4 configured directories under root: missing, empty, populated, repeated; with faults also unscannable / is-file.
-func genFS(r *hx.R, root string, rich, faults, dirFaults bool) *absFS {
+// genFileAsDir: what stands at a configured path which is not a directory.
+func genFileAsDir(r *hx.R, tag, base string, o fsOpts) *absEntry {
+	var e *absEntry
+	for e == nil || e.Kind == entSub {
+		e = genEntry(r, tag, map[string]bool{}, o)
+	}
+	e.Name = base
+	if e.Kind == entValid && o.auto && (!defectPendingLinkTargetUnwatched || o.quiet) {
+		// DEFECT-PENDING(link-target-unwatched): a configured path which is a link to a Spec file is watched behind the link;
+		// taking the link away is not noticed in automatic mode
+		e.ViaLink = false
+	}
+	if e.Kind == entInvalid {
+		switch e.Invalid {
+		case "fifo":
+			e.Invalid = "socket" // a FIFO under a Spec name would block the reader: never generated
+		case "linktodir":
+			e.Invalid = "syntax" // a link to a directory as the configured path is a configured directory (ViaLink)
+		case "dangling", "selflink", "enotdirlink", "toolonglink":
+			if o.auto {
+				// such a path is also a directory the watcher cannot watch: it would carry a Spec error and a directory
+				// error under one key; kept to manual mode
+				e.Invalid = "empty"
+			}
+		}
+	}
+	return e
+}
+
+// genFS: 0-6 configured directories under root: missing, empty, populated, repeated (also in another spelling), spelled
+// unusually; with dirFaults also a file / below a file; with perm also without the permissions needed to scan them.
+func genFS(r *hx.R, root string, o fsOpts) *absFS {
 	fs := &absFS{}
 	n := 1 + r.Intn(4)
 	if r.Chance(0.03) {
 		n = 0
+	} else if r.Chance(0.05) {
+		n = 5 + r.Intn(2)
 	}
 	for i := 0; i < n; i++ {
 		if i > 0 && r.Chance(0.12) {
@@ -390,48 +782,71 @@ func genFS(r *hx.R, root string, rich, faults, dirFaults bool) *absFS {
 			continue
 		}
 		d := &absDir{Path: filepath.Join(root, fmt.Sprintf("d%d", i)), State: dirDir}
+		tag := fmt.Sprintf("d%d", i)
 		x := r.Float64()
 		switch {
 		case x < 0.12:
 			d.State = dirMissing
-		case dirFaults && x < 0.22:
+		case o.dirFaults && x < 0.22:
 			d.State = dirUnscannable
 			d.Path = filepath.Join(root, fmt.Sprintf("f%d", i), "below")
-		case dirFaults && x < 0.32:
+		case o.dirFaults && x < 0.32:
 			d.State = dirIsFile
 			if r.Chance(0.7) {
 				d.Path = filepath.Join(root, fmt.Sprintf("d%d.json", i))
 			}
-			used := map[string]bool{}
-			var e *absEntry
-			for e == nil || e.Kind == entSub {
-				used = map[string]bool{}
-				e = genEntry(r, fmt.Sprintf("d%d", i), used, rich, faults)
+			d.File = genFileAsDir(r, tag, filepath.Base(d.Path), o)
+		case o.perm && x < 0.50:
+			d.State = dirUnscannable
+			d.Unscan = hx.Pick(r, []string{"mode000", "mode444", "mode111", "parent000"})
+			if d.Unscan == "parent000" {
+				d.Path = filepath.Join(root, fmt.Sprintf("p%d", i), "below")
 			}
-			e.Name = filepath.Base(d.Path)
-			if e.Kind == entInvalid && e.Invalid == "fifo" {
-				e.Invalid = "socket" // a FIFO under a Spec name would block the reader: never generated
+			d.Entries = genDirEntries(r, tag, o)
+			if len(d.Entries) == 0 {
+				d.Entries = []absEntry{*genEntryNamed(r, tag, "a.json", entValid, o)}
 			}
-			if e.Kind == entInvalid && (e.Invalid == "linktodir") {
-				e.Invalid = "syntax" // a link to a directory as the configured path would be walked as a directory by nobody: keep it a file
-			}
-			d.File = e
 		default:
-			d.Entries = genDirEntries(r, fmt.Sprintf("d%d", i), rich, faults)
+			if r.Chance(0.08) {
+				// a directory whose own name looks like a Spec file
+				d.Path = filepath.Join(root, fmt.Sprintf("d%d%s", i, hx.Pick(r, []string{".json", ".yaml"})))
+			}
+			d.Entries = genDirEntries(r, tag, o)
 			d.ViaLink = r.Chance(0.12)
 		}
 		fs.Dirs = append(fs.Dirs, d)
+	}
+	if wd, err := os.Getwd(); err == nil && o.relative {
+		// now and then a directory is configured relative to the working directory
+		for _, d := range fs.Dirs {
+			if rel, err := filepath.Rel(wd, d.Path); err == nil && !strings.HasPrefix(rel, "..") && d.Rel == "" && r.Chance(0.07) {
+				d.Rel = rel
+			}
+		}
+	}
+	fs.Spell = make([]string, len(fs.Dirs))
+	for i, d := range fs.Dirs {
+		switch {
+		case d.Rel != "" && r.Chance(0.5):
+			fs.Spell[i] = "./" + d.Rel
+		case d.Rel != "":
+		case r.Chance(0.2):
+			fs.Spell[i] = spellDir(r, d.Path)
+		}
 	}
 	return fs
 }
 
 // mutate applies one random change to the abstract state and to the disk; returns a description.
-func (fs *absFS) mutate(r *hx.R, rich, faults bool) string {
+func (fs *absFS) mutate(r *hx.R, o fsOpts) string {
 	if len(fs.Dirs) == 0 {
 		return "none"
 	}
 	d := hx.Pick(r, fs.Dirs)
 	tag := filepath.Base(d.Path)
+	if tag == "below" {
+		tag = filepath.Base(filepath.Dir(d.Path))
+	}
 	switch d.State {
 	case dirMissing:
 		d.State = dirDir
@@ -439,6 +854,14 @@ func (fs *absFS) mutate(r *hx.R, rich, faults bool) string {
 		_ = os.MkdirAll(d.Path, 0o755)
 		return "mkdir " + tag
 	case dirUnscannable:
+		if d.Unscan != "" {
+			// repair: the permissions are given back; what has been in the directory all the time is seen now
+			d.clearPerm()
+			d.State = dirDir
+			how := d.Unscan
+			d.Unscan = ""
+			return "repair-permissions (" + how + ") " + tag
+		}
 		// repair: the ancestor becomes a directory, the configured path an empty directory
 		d.State = dirDir
 		d.Entries = nil
@@ -446,22 +869,36 @@ func (fs *absFS) mutate(r *hx.R, rich, faults bool) string {
 		_ = os.MkdirAll(d.Path, 0o755)
 		return "repair-ancestor " + tag
 	case dirIsFile:
-		d.State = dirMissing
-		d.File = nil
 		_ = os.RemoveAll(d.Path)
+		removeEntry(d.Path)
+		d.File = nil
+		if r.Chance(0.4) {
+			d.State = dirDir
+			d.Entries = nil
+			_ = os.MkdirAll(d.Path, 0o755)
+			return "file-becomes-directory " + tag
+		}
+		d.State = dirMissing
 		return "remove-file-dir " + tag
 	}
 	x := r.Float64()
-	switch {
-	case x < 0.45 || len(d.Entries) == 0: // write or overwrite
-		used := map[string]bool{}
-		e := genEntry(r, tag, used, rich, faults)
-		for e == nil {
-			e = genEntry(r, tag, used, rich, faults)
+	var bad []int
+	for i := range d.Entries {
+		if d.Entries[i].Kind == entInvalid {
+			bad = append(bad, i)
 		}
-		replaced := false
+	}
+	switch {
+	case x < 0.38 || len(d.Entries) == 0: // write or overwrite
+		used := map[string]bool{}
+		e := genEntry(r, tag, used, o)
+		for e == nil {
+			e = genEntry(r, tag, used, o)
+		}
+		replaced, inPlace := false, false
 		for i := range d.Entries {
 			if d.Entries[i].Name == e.Name {
+				inPlace = d.Entries[i].isRegularContent() && e.isRegularContent() && r.Chance(0.6)
 				d.Entries[i] = *e
 				replaced = true
 			}
@@ -469,28 +906,113 @@ func (fs *absFS) mutate(r *hx.R, rich, faults bool) string {
 		if !replaced {
 			d.Entries = append(d.Entries, *e)
 		}
-		writeEntry(filepath.Join(d.Path, e.Name), e)
-		if replaced {
+		writeEntryHow(filepath.Join(d.Path, e.Name), e, inPlace)
+		switch {
+		case inPlace:
+			return "rewrite-in-place " + tag + "/" + e.Name
+		case replaced:
 			return "overwrite " + tag + "/" + e.Name
 		}
 		return "write " + tag + "/" + e.Name
-	case x < 0.75: // remove
+	case x < 0.56: // remove
 		i := r.Intn(len(d.Entries))
 		name := d.Entries[i].Name
-		_ = os.RemoveAll(filepath.Join(d.Path, name))
-		_ = os.RemoveAll(filepath.Join(d.Path, name) + ".tgtdir")
-		d.Entries = append(d.Entries[:i], d.Entries[i+1:]...)
+		removeEntry(filepath.Join(d.Path, name))
+		d.Entries = append(d.Entries[:i:i], d.Entries[i+1:]...)
 		return "remove " + tag + "/" + name
-	case x < 0.88 && faults: // repair: an invalid file becomes valid
-		for i := range d.Entries {
-			if d.Entries[i].Kind == entInvalid {
-				d.Entries[i].Kind = entValid
-				d.Entries[i].Spec = genValidSpec(r, tag+"/"+d.Entries[i].Name, rich)
-				writeEntry(filepath.Join(d.Path, d.Entries[i].Name), &d.Entries[i])
-				return "repair " + tag + "/" + d.Entries[i].Name
+	case x < 0.68: // rename: inside the directory or into another configured directory, under a free name
+		i := r.Intn(len(d.Entries))
+		e := d.Entries[i]
+		d2 := d
+		if r.Chance(0.4) && !(e.Kind == entValid && e.ViaLink && e.LinkHow == 1) {
+			var cand []*absDir
+			for _, c := range fs.Dirs {
+				if c.State == dirDir {
+					cand = append(cand, c)
+				}
+			}
+			d2 = hx.Pick(r, cand)
+		}
+		var name string
+		if e.Kind == entInvalid && e.Invalid == "fifo" {
+			name = hx.Pick(r, []string{"noext", "aa", "0fifo", "b.sock", "zz"})
+		} else if r.Chance(0.25) {
+			name = pickNonSpecName(r)
+		} else {
+			name = pickSpecName(r)
+		}
+		free := true
+		for _, x := range d2.Entries {
+			if x.Name == name {
+				free = false
 			}
 		}
-		fallthrough
+		if !free || e.hasCompanion() {
+			return "none (refresh again)"
+		}
+		if os.Rename(filepath.Join(d.Path, e.Name), filepath.Join(d2.Path, name)) != nil {
+			return "none (rename failed)"
+		}
+		old := e.Name
+		d.Entries = append(d.Entries[:i:i], d.Entries[i+1:]...)
+		e.Name = name
+		d2.Entries = append(d2.Entries, e)
+		tag2 := filepath.Base(d2.Path)
+		if tag2 == "below" {
+			tag2 = filepath.Base(filepath.Dir(d2.Path))
+		}
+		return "rename " + tag + "/" + old + " -> " + tag2 + "/" + name
+	case x < 0.72:
+		return "none (refresh again)"
+	case x < 0.85 && o.faults && len(bad) > 0: // repair: an invalid file (any of them) becomes valid
+		i := hx.Pick(r, bad)
+		e := &d.Entries[i]
+		path := filepath.Join(d.Path, e.Name)
+		if e.Invalid == "dangling" && len(e.Name) < 200 && (!o.auto || (defectPendingLinkTargetUnwatched && !o.quiet)) && r.Chance(0.7) {
+			// the link stays, its target appears
+			e.Kind, e.Invalid = entValid, ""
+			e.Spec = genValidSpec(r, tag+"/"+e.Name, o.rich)
+			e.ViaLink, e.LinkHow = true, 3
+			writeSpecFile(danglingTarget(path), e.Spec)
+			return "repair (the target of the link appears) " + tag + "/" + e.Name
+		}
+		if e.Invalid == "unreadable" && r.Chance(0.7) {
+			// the permission to read it is given back: the Spec that has been in the file all the time
+			e.Kind, e.Invalid, e.ViaLink = entValid, "", false
+			dev := specs.Device{Name: "dev1"}
+			dev.ContainerEdits.Env = []string{"FP=unreadable"}
+			e.Spec = &specs.Spec{Version: "0.3.0", Kind: "vendor1.com/gpu", Devices: []specs.Device{dev}}
+			_ = os.Chmod(path, 0o644)
+			return "repair (chmod 644) " + tag + "/" + e.Name
+		}
+		e.Kind, e.Invalid = entValid, ""
+		e.Spec = genValidSpec(r, tag+"/"+e.Name, o.rich)
+		e.ViaLink = false
+		writeEntry(path, e)
+		return "repair " + tag + "/" + e.Name
+	case x < 0.93 && o.dirFaults: // a good directory goes bad
+		switch {
+		case o.perm && !d.ViaLink && r.Chance(0.5):
+			d.State = dirUnscannable
+			d.Unscan = hx.Pick(r, []string{"mode000", "mode444", "mode111"})
+			d.applyPerm()
+			return "chmod (" + d.Unscan + ") " + tag
+		case filepath.Base(d.Path) == "below" && filepath.Base(filepath.Dir(d.Path))[0] == 'f':
+			d.State = dirUnscannable
+			d.Entries = nil
+			d.ViaLink = false
+			d.materialise()
+			return "ancestor-becomes-file " + tag
+		default:
+			_ = os.RemoveAll(d.Path)
+			_ = os.RemoveAll(d.Path + ".real")
+			d.State = dirIsFile
+			d.ViaLink = false
+			d.Entries = nil
+			d.File = genFileAsDir(r, tag, filepath.Base(d.Path), o)
+			writeEntry(d.Path, d.File)
+			return "directory-becomes-file " + tag
+		}
 	default: // rmdir
 		_ = os.RemoveAll(d.Path)
 		_ = os.RemoveAll(d.Path + ".real")
@@ -512,23 +1034,33 @@ type probeObs struct {
 }
 
 type cacheObs struct {
-	Devices []string
-	Probes  []probeObs
-	Vendors []string
-	Classes []string
-	VSpecs  map[string][][2]interface{}
-	ErrKeys []string
-	RefErr  bool
-	Panic   string
-	Auto    bool
-	DirErrs []string
+	Devices  []string
+	Probes   []probeObs
+	Vendors  []string
+	Classes  []string
+	VSpecs   map[string][][2]interface{}
+	ErrKeys  []string
+	RefErr   bool
+	Panic    string
+	Auto     bool
+	DirErrs  []string
+	SpecErrs []string // paths of the cached Specs for which GetSpecErrors answers with errors
+	AllErrs  []string // every key of GetErrors
 }
+
+// obsDefaultAPI: the default cache is refreshed and asked for its errors through the package-level functions.
+var obsDefaultAPI bool
 
 func observeCache(c *cdi.Cache, probes []string, refresh bool) cacheObs {
 	var o cacheObs
 	panicked, msg := hx.Guard(func() {
+		viaPkg := obsDefaultAPI && c == cdi.GetDefaultCache()
 		if refresh {
-			o.RefErr = c.Refresh() != nil
+			if viaPkg {
+				o.RefErr = cdi.Refresh() != nil
+			} else {
+				o.RefErr = c.Refresh() != nil
+			}
 		}
 		o.Devices = c.ListDevices()
 		for _, n := range probes {
@@ -546,27 +1078,42 @@ func observeCache(c *cdi.Cache, probes []string, refresh bool) cacheObs {
 		o.Vendors = c.ListVendors()
 		o.Classes = c.ListClasses()
 		o.VSpecs = map[string][][2]interface{}{}
+		specErrs := map[string]bool{}
 		for _, v := range append(append([]string{}, o.Vendors...), "novendor.example") {
 			var l [][2]interface{}
 			for _, s := range c.GetVendorSpecs(v) {
 				l = append(l, [2]interface{}{s.GetPath(), s.GetPriority()})
+				if len(c.GetSpecErrors(s)) > 0 {
+					specErrs[s.GetPath()] = true
+				}
 			}
 			if v != "novendor.example" || len(l) > 0 {
 				o.VSpecs[v] = l
 			}
 		}
+		o.SpecErrs = []string{}
+		for k := range specErrs {
+			o.SpecErrs = append(o.SpecErrs, k)
+		}
+		sort.Strings(o.SpecErrs)
 		dirErrs := c.GetSpecDirErrors()
 		for k := range dirErrs {
 			o.DirErrs = append(o.DirErrs, k)
 		}
 		sort.Strings(o.DirErrs)
-		for k := range c.GetErrors() {
+		all := c.GetErrors()
+		if viaPkg {
+			all = cdi.GetErrors()
+		}
+		for k := range all {
+			o.AllErrs = append(o.AllErrs, k)
 			if _, isDir := dirErrs[k]; isDir {
 				continue
 			}
 			o.ErrKeys = append(o.ErrKeys, k)
 		}
 		sort.Strings(o.ErrKeys)
+		sort.Strings(o.AllErrs)
 	})
 	if panicked {
 		o.Panic = msg
@@ -576,7 +1123,7 @@ func observeCache(c *cdi.Cache, probes []string, refresh bool) cacheObs {
 
 func (o *cacheObs) key() string {
 	var b strings.Builder
-	fmt.Fprint(&b, o.Devices, o.Probes, o.Vendors, o.Classes, o.ErrKeys, o.RefErr, o.Panic)
+	fmt.Fprint(&b, o.Devices, o.Probes, o.Vendors, o.Classes, o.ErrKeys, o.SpecErrs, o.RefErr, o.Panic)
 	vs := make([]string, 0, len(o.VSpecs))
 	for v := range o.VSpecs {
 		vs = append(vs, v)
@@ -610,27 +1157,29 @@ func (o *cacheObs) term() string {
 		}
 		vitems[i] = hx.P(hx.S(v), hx.L(l))
 	}
-	return hx.C("mkObs01", hx.LS(o.Devices), hx.L(probes), hx.LS(o.Vendors), hx.LS(o.Classes), hx.L(vitems), hx.LS(o.ErrKeys), hx.B(o.RefErr), hx.B(o.Auto), hx.LS(o.DirErrs))
+	return hx.C("mkObs01", hx.LS(o.Devices), hx.L(probes), hx.LS(o.Vendors), hx.LS(o.Classes), hx.L(vitems), hx.LS(o.ErrKeys), hx.B(o.RefErr), hx.B(o.Auto), hx.LS(o.DirErrs),
+		hx.LS(o.SpecErrs), hx.LS(o.AllErrs))
 }
 
 // settle polls an auto-refresh cache until its observation equals the one of a freshly built manual cache on the same
 // directories (deadline), and returns the last observation.
 func settle(c *cdi.Cache, dirs []string, probes []string, deadline time.Duration, wantDirErrs []string) cacheObs {
-	fresh := cdi.NewCache // placeholder to keep the import used when building without auto mode
-	_ = fresh
 	ref, _ := cdi.NewCache(cdi.WithSpecDirs(dirs...), cdi.WithAutoRefresh(false))
 	want := observeCache(ref, probes, true)
 	end := time.Now().Add(deadline)
 	var got cacheObs
 	for {
 		got = observeCache(c, probes, true)
-		if (got.key() == want.key() && fmt.Sprint(got.DirErrs) == fmt.Sprint(wantDirErrs)) || time.Now().After(end) {
+		if got.key() == want.key() && fmt.Sprint(got.DirErrs) == fmt.Sprint(wantDirErrs) {
+			return got
+		}
+		if time.Now().After(end) {
+			settleDeadlines++
 			return got
 		}
 		time.Sleep(5 * time.Millisecond)
 	}
 }
-
 
 // settleQuiet: like settle, but the cache is only queried, never asked to refresh, until it answers like a cache freshly
 // built on the directories (or the deadline passes): what is observed is what automatic refresh alone achieved.  Once
@@ -646,21 +1195,25 @@ func settleQuiet(c *cdi.Cache, dirs []string, probes []string, deadline time.Dur
 			return observeCache(c, probes, true)
 		}
 		if time.Now().After(end) {
+			settleDeadlines++
 			return got
 		}
 		time.Sleep(5 * time.Millisecond)
 	}
 }
 
-// missingDirs: the configured directories that do not exist (sorted, without repetitions): what an automatic-refresh cache
-// reports as directory errors.
-func (fs *absFS) missingDirs() []string {
+// settleDeadlines counts the observations of automatic-refresh caches which did not converge within their deadline.
+var settleDeadlines int
+
+// unwatchableDirs: the configured directories that do not exist or lie below a regular file (sorted, without repetitions):
+// what an automatic-refresh cache reports as directory errors.
+func (fs *absFS) unwatchableDirs() []string {
 	seen := map[string]bool{}
 	out := []string{}
 	for _, d := range fs.Dirs {
-		if d.State == dirMissing && !seen[d.Path] {
+		if (d.State == dirMissing || d.State == dirUnscannable) && !seen[d.Path] {
 			seen[d.Path] = true
-			out = append(out, d.Path)
+			out = append(out, d.confPath())
 		}
 	}
 	sort.Strings(out)
